@@ -485,7 +485,7 @@ func buildC06Ctx(r *rng, nT, nP int) *c06ctx {
 
 // the deterministic job list of one (seed, tier)
 func buildC06Jobs(r *rng, tier string) ([]c06job, *c06ctx) {
-	nT, nP, maxTrunc, budget, nRand := 36, 24, 120, 3, 150
+	nT, nP, maxTrunc, budget, nRand := 90, 60, 150, 3, 300
 	if tier == "thorough" {
 		nT, nP, maxTrunc, budget, nRand = 300, 300, 4000, 12, 3000
 	}
